@@ -116,7 +116,8 @@ def enter_room_contract(target=BM + 'basic_enter_room', also=()):
     return Contract(
         target=target, schema=W, self_obj='manager', also=also, params={'sid': 'V', 'namespace': 'V', 'room': 'V', 'eio_sid': 'V'},
         requires=lambda c: dict(struct(c.pre), **dict(i1(c.pre), **{
-            'connect.sid-not-none': z3.Implies(c.a.eio_sid != NONE, c.a.sid != NONE)})),
+            'connect.sid-not-none': z3.Implies(c.a.eio_sid != NONE, c.a.sid != NONE),
+            'namespace-truthy': smt.truthy(c.a.namespace)})),
         cases=[
             Case('application.enters', when=lambda c: z3.And(z3.Not(given(c)), is_member(c)),
                  post=lambda c: dict(entered(c, transport(c.pre, c.a.namespace, c.a.sid)),
@@ -226,6 +227,7 @@ def basic_disconnect_contract():
              }
         d.update(struct(c.post))
         d.update(pend_ok(c.post))
+        d['callbacks-invariant-kept'] = z3.Implies(z3.And(*cb_ok(c.pre).values()), z3.And(*cb_ok(c.post).values()))
         return d
     present = lambda c: rooms(c.pre).c['dom'][c.a.namespace]
     return Contract(
@@ -288,7 +290,7 @@ def connect_contract():
         return d
     return Contract(
         target=BM + 'connect', schema=W, self_obj='manager', params={'eio_sid': 'V', 'namespace': 'V'},
-        requires=lambda c: dict(inv_m(c.pre), **dict(issued_ok(c.pre), **{'transport-not-none': c.a.eio_sid != NONE})),
+        requires=lambda c: dict(inv_m(c.pre), **dict(issued_ok(c.pre), **{'transport-not-none': c.a.eio_sid != NONE, 'namespace-truthy': smt.truthy(c.a.namespace)})),
         cases=[Case('already-connected', when=dupc, result=lambda c: S(NONE),
                     post=lambda c: dict({'some-sid-owns-the-transport': owns(c.pre, c.a.eio_sid, c.a.namespace,
                                                                              rooms(c.pre).c['..inv'][c.a.namespace][NONE][c.a.eio_sid]),
